@@ -97,6 +97,34 @@ func loadProgram(repoDir, verifDir string, pkgRel []string) (*Program, error) {
 		sp.Build()
 		p.SSAPkgs[pkgs[i].PkgPath] = sp
 	}
+	// module-internal dependencies: build bodies too (frame inference, contracts of callees)
+	var modPkgs []*packages.Package
+	seenPk := map[string]bool{}
+	var walkPk func(pk *packages.Package)
+	walkPk = func(pk *packages.Package) {
+		if seenPk[pk.PkgPath] {
+			return
+		}
+		seenPk[pk.PkgPath] = true
+		if pk.PkgPath == modPath || strings.HasPrefix(pk.PkgPath, modPath+"/") {
+			modPkgs = append(modPkgs, pk)
+		}
+		for _, im := range pk.Imports {
+			walkPk(im)
+		}
+	}
+	for _, pk := range pkgs {
+		walkPk(pk)
+	}
+	for _, pk := range modPkgs {
+		if _, ok := p.SSAPkgs[pk.PkgPath]; ok {
+			continue
+		}
+		if sp := prog.Package(pk.Types); sp != nil {
+			sp.Build()
+			p.SSAPkgs[pk.PkgPath] = sp
+		}
+	}
 	for fn := range ssautil.AllFunctions(prog) {
 		if fn.Pkg != nil {
 			if _, ok := p.SSAPkgs[fn.Pkg.Pkg.Path()]; ok {
@@ -104,8 +132,8 @@ func loadProgram(repoDir, verifDir string, pkgRel []string) (*Program, error) {
 			}
 		}
 	}
-	// contracts: every compiled Go file of the loaded packages that has //@ lines
-	for _, pk := range pkgs {
+	// contracts: every compiled Go file of the module's packages in the import closure that has //@ lines
+	for _, pk := range modPkgs {
 		for _, f := range pk.CompiledGoFiles {
 			var cs []*Contract
 			var err error
